@@ -1,4 +1,5 @@
 import HidVerif.Proofs.Escape
+import HidVerif.Proofs.PackBools
 /-!
 # C13 — constant data reaches the output byte for byte
 
@@ -31,5 +32,16 @@ theorem char_immediate_roundtrip (b : Nat) (hb : b < 256) :
 /-- non-vacuity / spot values of the transcribed function -/
 example : escapeBytes [97, 92, 98, 34, 10, 0, 255] [34] =
     [97, 92, 92, 98, 92, 34, 92, 110, 92, 120, 48, 48, 92, 120, 102, 102] := by decide
+
+/-- **constant `bool` arrays**: `pack_bools` (transcribed from the source on every run) turns `n` booleans into `⌈n/8⌉`
+bytes, each below 256, in which bit `j % 8` of byte `j / 8` is element `j` and every other bit is clear - for every
+list of booleans, of every length. -/
+theorem pack_bools_spec (bs : List Nat) (hb : ∀ b ∈ bs, b ≤ 1) :
+    (packBools bs).length = (bs.length + 7) / 8 ∧ (∀ x ∈ packBools bs, x < 256) ∧
+    (∀ j, j < bs.length → Pack.bitAt (packBools bs) j = (bs.getD j 0 == 1)) ∧
+    (∀ j, bs.length ≤ j → Pack.bitAt (packBools bs) j = false) :=
+  Pack.packBools_spec bs hb
+
+example : packBools [1, 0, 1, 1, 0, 0, 0, 0, 1, 1] = [13, 3] ∧ packBools [] = [] ∧ packBools [0, 0, 0, 0, 0, 0, 0, 1] = [128] := by decide
 
 end HidVerif.Props.C13
